@@ -631,6 +631,9 @@ func (a *Analysis) refineMasks() {
 							}
 						} else if c, ok := arg.(*ssa.Call); ok && c.Common().StaticCallee() != nil && a.P.InModule(c.Common().StaticCallee()) {
 							m = a.retMask(c.Common().StaticCallee(), 0)
+						} else if col, ok := a.columnBytes(arg); ok {
+							// an entry of a constant table: the values of that column
+							m = col
 						} else {
 							m = fullSet()
 							if a.multi[arg] {
@@ -711,4 +714,24 @@ func (a *Analysis) maskAtCall(q *ssa.Function, ci ssa.CallInstruction) ByteSet {
 		}
 	}
 	return fullSet()
+}
+
+// columnBytes: arg reads a byte-valued place of a constant table; the set of values of that column.
+func (a *Analysis) columnBytes(arg ssa.Value) (ByteSet, bool) {
+	var out ByteSet
+	if !isIntT(arg.Type()) {
+		return out, false
+	}
+	col, ok := tables.ColumnValues(a.P, arg)
+	if !ok || len(col) == 0 {
+		return out, false
+	}
+	for _, cv := range col {
+		k, isInt := cv.(int64)
+		if !isInt || k < 0 || k > 255 {
+			return ByteSet{}, false
+		}
+		out.Add(byte(k))
+	}
+	return out, true
 }
